@@ -7,8 +7,8 @@ LEVEL_TEXT = ("PathName.tla states validity (character sequences), the order of 
               "outcome; TLC enumerates every name of the bounded model and every configuration set, checks the code-shaped "
               "FindPathConf model against the statement, and judges what the real conf.FindPathConf returned for every "
               "(set, name) over repeated calls on freshly built maps")
-LEVEL_NOTE = ("bounded: names of length <= 2 (thorough 4) over {c,a,m,b,0,/,.,~,e-acute} plus ~100 shapes and seeded random "
-              "mutations; subsets (<= 3) of 9 keys respecting the alias rule; regular-expression matching itself is a table "
+LEVEL_NOTE = ("bounded: names of length <= 2 (thorough 3) over {c,a,m,b,0,/,.,~,e-acute} plus ~100 shapes and seeded random "
+              "mutations; subsets (<= 3; quick: all of size <= 2 and 40 sampled of size 3) of 12 keys (9 anchored or static, 3 unanchored expressions) respecting the alias rule; regular-expression matching itself is a table "
               "computed with Go's regexp (trusted)")
 TECHNIQUE = "TLA+ spec checked by TLC; TLC-enumerated (configuration, name) pairs replayed into conf.FindPathConf; results judged by TLC"
 
@@ -35,13 +35,20 @@ def s(chars):
 
 def run(ctx):
     d = ctx.specdir()
-    maxlen = ctx.pick(2, 4)
+    maxlen = ctx.pick(2, 3)
     with open(d + "/PathNameGen_c14.cfg", "w") as fh:
         fh.write(GEN_CFG % maxlen)
     g = vf.mc(ctx, "PathNameGen", "PathNameGen_c14.cfg", workers=4, timeout=600)
     keys = sorted(g.tagged("KEY"), key=lambda k: k["idx"])
     cfgs = [sorted(c["keys"]) for c in g.tagged("CFG")]
     cfgs.sort()
+    all_sets = len(cfgs)
+    if not ctx.thorough:
+        # quick: every set of at most two keys and a seeded sample of the three-key sets
+        import random
+        rnd = random.Random(int(ctx.seed) * 104729 + 14)
+        triples = [c for c in cfgs if len(c) == 3]
+        cfgs = sorted([c for c in cfgs if len(c) < 3] + rnd.sample(triples, min(40, len(triples))))
     tlc_names = [x["chars"] for x in g.tagged("NAME")]
     if len(keys) < 8 or len(cfgs) < 50 or len(tlc_names) < 80:
         raise vf.Infra("generator produced %d keys, %d sets, %d names" % (len(keys), len(cfgs), len(tlc_names)))
@@ -57,7 +64,7 @@ def run(ctx):
     cf = vf.write_ndjson(ctx.path("c14_cases.ndjson"), [case])
     of = ctx.path("c14_out.ndjson")
     vf.gotest_ok(ctx, "./internal/conf/", "^TestVerif_C14_Resolve$", cases=cf, out=of,
-                 params={"REPS": ctx.pick(32, 64), "RANDOM": ctx.pick(200, 1500)})
+                 params={"REPS": ctx.pick(24, 48), "RANDOM": ctx.pick(200, 1500)})
     rows, obs = [], []
     for rec in vf.read_ndjson(of):
         (rows if rec["t"] == "name" else obs).append(rec)
@@ -92,12 +99,13 @@ def run(ctx):
             what, rec["confs"], rec["name"], json.dumps(got, ensure_ascii=False), json.dumps(exp, ensure_ascii=False)))
     for o in obs:
         multi += sum(1 for x in o["res"] if len(x) > 1)
-    ctx.set("exhaustive", True)
+    ctx.set("exhaustive", ctx.thorough)   # quick samples the three-key sets
     ctx.set("configuration_sets", len(cfgs))
+    ctx.set("configuration_sets_of_the_model", all_sets)
     ctx.set("names_bounded_model", len(tlc_names))
     ctx.set("names_shapes", len(names) - len(tlc_names))
     ctx.set("names_random", len(rows) - len(names))
-    ctx.set("repeated_calls_per_pair", ctx.pick(32, 64))
+    ctx.set("repeated_calls_per_pair", ctx.pick(24, 48))
     ctx.set("pairs_with_more_than_one_distinct_result", multi)
     ctx.set("traces_validated_against_impl", pairs)
     mid = len(cfgs) // 2
